@@ -922,14 +922,25 @@ impl Gen {
                         self.queue.push_back(Step::Bind { i, a: Id::L(absent[k + 1]), b: Id::L(absent[k]), l: l.clone() });
                     }
                 }
-                let carriers = [absent[size - 1], absent[self.rng.below(size)]];
-                for c in carriers {
+                // one run in three: every member holds an unread datum (the unread counter at its
+                // maximum), and the graph is saved and reloaded in that state before the reads
+                let all = self.rng.chance(1, 3);
+                let mut carriers: Vec<usize> = if all { absent.clone() } else { vec![absent[size - 1], absent[self.rng.below(size)]] };
+                for c in &carriers {
                     let d = self.data_bytes();
-                    self.queue.push_back(Step::Put { i, v: Id::L(c), d });
+                    self.queue.push_back(Step::Put { i, v: Id::L(*c), d });
+                }
+                if all {
+                    if let (Some(dst), true) = (view.free_slot(), view.followers(i).is_empty()) {
+                        let path = self.rng.below(PATHS);
+                        self.queue.push_back(Step::Save { i, path, fault: WFault::None });
+                        self.queue.push_back(Step::Load { path, dst, fault: RFault::None, link: Some(i) });
+                    }
+                    self.rng.shuffle(&mut carriers);
                 }
                 if self.rng.chance(3, 4) {
-                    for c in carriers {
-                        self.queue.push_back(Step::Data { i, v: Id::L(c) });
+                    for c in &carriers {
+                        self.queue.push_back(Step::Data { i, v: Id::L(*c) });
                     }
                 }
                 Some(Step::Add { i, v: Id::L(absent[0]) })
